@@ -145,6 +145,11 @@ class ProtoExporter:
         for literal in module.literals:
             pmod.literals.append(export_literal(literal))
 
+        # Check the name again: a Module exported along the way,
+        # i.e. one instantiated beneath this one, may have taken it.
+        if pmod.name in self.modules_by_name:
+            self.export_module_name(module)  # Raises the name-conflict error
+
         # Store references to the result, and return it
         mapping = ModuleMapping(module, pmod)
         self.modules_by_id[id(module)] = mapping
